@@ -32,6 +32,33 @@ type Small struct {
 	Y string `plenc:"2"`
 }
 
+// Ptrs: a pointer to every scalar kind, and containers of such pointers.
+type Ptrs struct {
+	B    *bool            `plenc:"1"`
+	I8   *int8            `plenc:"2"`
+	I16  *int16           `plenc:"3"`
+	I32  *int32           `plenc:"4"`
+	I64  *int64           `plenc:"5"`
+	U    *uint            `plenc:"6"`
+	U8   *uint8           `plenc:"7"`
+	U16  *uint16          `plenc:"8"`
+	U32  *uint32          `plenc:"9"`
+	U64  *uint64          `plenc:"10"`
+	F32  *float32         `plenc:"11"`
+	F64  *float64         `plenc:"12"`
+	S    *string          `plenc:"13"`
+	T    *time.Time       `plenc:"14"`
+	By   *[]byte          `plenc:"15"`
+	NI   *null.Int        `plenc:"16"`
+	Bs   []*bool          `plenc:"17"`
+	Is   []*int           `plenc:"18"`
+	Ss   []*string        `plenc:"19"`
+	MB   map[string]*bool `plenc:"20"`
+	MI   map[int]*int     `plenc:"21"`
+	Name *MyString        `plenc:"22"`
+	Sym  *string          `plenc:"23,intern"`
+}
+
 type Wide struct {
 	I     int               `plenc:"1"`
 	I8    int8              `plenc:"2"`
@@ -370,6 +397,7 @@ func noProto(t *TypeInfo)           { t.NoProto = true }
 
 func init() {
 	reg("Wide", "F1", Wide{})
+	reg("Ptrs", "F1", Ptrs{})
 	reg("Inner", "F1", Inner{})
 	reg("Small", "F1", Small{})
 	reg("[]Inner", "F1", []Inner{}, notTop)
